@@ -22,6 +22,7 @@ def run(ctx, L, tier):
     set_order(ctx, L)
     sources(ctx, L)
     paths(ctx, L)
+    explicit_encoding(ctx, L)
     shared_state(ctx, L)
     output_names(ctx, L)
     from . import c16
@@ -31,6 +32,34 @@ def run(ctx, L, tier):
     from . import shared_gen as _G
     _G.generators_read_only(ctx, L)
     return sorted(set(o.rule for o in L.obligations))
+
+
+def explicit_encoding(ctx, L):
+    """(d) every text file prophyc reads or writes is opened with an explicit encoding: without one the bytes read from an
+    input or written to an output depend on the locale of the process (LANG / LC_ALL / PYTHONUTF8), which is not an input."""
+    n = 0
+    for modname in MODULES:
+        m = ctx.py.mod(modname)
+        for node in ast.walk(m.tree):
+            if not isinstance(node, ast.Call):
+                continue
+            fn = ws(unparse(node.func))
+            if fn not in ('open', 'io.open', 'codecs.open', 'os.fdopen') and not fn.endswith('.open_text'):
+                continue
+            n += 1
+            f = m.func_of.get(id(node))
+            mode = node.args[1] if len(node.args) > 1 else next((k.value for k in node.keywords if k.arg == 'mode'), None)
+            okm, mv = try_const(mode) if mode is not None else (True, 'r')
+            binary = okm and isinstance(mv, str) and 'b' in mv
+            enc = next((k.value for k in node.keywords if k.arg == 'encoding'), None)
+            if enc is None and fn == 'codecs.open' and len(node.args) > 2:
+                enc = node.args[2]
+            oke, ev = try_const(enc) if enc is not None else (False, None)
+            L.check(binary or (oke and isinstance(ev, str) and ev.lower().replace('_', '-') in ('utf-8', 'utf8', 'ascii', 'latin-1', 'iso-8859-1')),
+                    'F11.locale-dependence', '%s|%s' % (modname, norm_key(f, node) if f else ws(unparse(node))), f.site(node) if f else m.rel,
+                    'a text file is opened without an explicit encoding: what is read / written then depends on the locale of the '
+                    'process (LC_ALL=C turns a UTF-8 comment into an error or into different bytes)', ws(unparse(node)))
+    L.floor('F11.locale-dependence', n, 3)
 
 
 def is_set_expr(v):
@@ -190,7 +219,11 @@ def paths(ctx, L):
         for node in ast.walk(m.tree):
             src = unparse(node) if isinstance(node, (ast.Attribute, ast.Call)) else ''
             f = m.func_of.get(id(node))
-            if isinstance(node, ast.Attribute) and src in ('os.curdir', 'os.getcwd', 'os.pardir', 'os.path.realpath', 'os.path.expanduser', 'os.getcwdu'):
+            if isinstance(node, ast.Attribute) and src in ('os.curdir', 'os.getcwd', 'os.pardir', 'os.path.realpath', 'os.path.expanduser', 'os.getcwdu',
+                                                           'os.path.relpath', 'os.path.expandvars', 'os.environ', 'os.getenv', 'os.getpid',
+                                                           'os.getlogin', 'os.uname', 'os.path.getmtime', 'os.path.getctime', 'os.stat',
+                                                           'locale.getpreferredencoding', 'locale.getlocale', 'sys.getfilesystemencoding',
+                                                           'tempfile.mkdtemp', 'tempfile.mkstemp'):
                 n += 1
                 L.bad('F11.cwd-dependence', '%s|%s' % (modname, src), f.site(node) if f else m.rel,
                       '%s makes a result depend on the working directory / user environment of the invocation' % src, src)
